@@ -158,16 +158,33 @@ func (x vfHandle) show() string {
 		return strconv.FormatUint(x.h.count.Load(), 10) + "/" + vfFloat(math.Float64frombits(x.h.sumBits.Load())) + "/" + strings.Join(bs, ".")
 	}
 }
+
+// emit goes through EVERY emission method of the handle types, chosen by the spelling of the delta:
+//
+//	counter:   "1" -> Inc()          anything else -> Add(d)           ("01" = Add(1))
+//	gauge:     set -> Set(d);  "1" -> Inc();  "-1" -> Dec();  "-<n>" -> Sub(n);  anything else -> Add(d)   ("01", "-01" = Add(+-1))
+//	histogram: Observe(d)
 func (x vfHandle) emit(set bool, d string) {
 	switch {
 	case x.c != nil:
+		if d == "1" {
+			x.c.Inc()
+			return
+		}
 		v, _ := strconv.ParseUint(d, 10, 64)
 		x.c.Add(v)
 	case x.g != nil:
 		v, _ := strconv.ParseInt(d, 10, 64)
-		if set {
+		switch {
+		case set:
 			x.g.Set(float64(v))
-		} else {
+		case d == "1":
+			x.g.Inc()
+		case d == "-1":
+			x.g.Dec()
+		case strings.HasPrefix(d, "-") && !strings.HasPrefix(d, "-0"):
+			x.g.Sub(float64(-v))
+		default:
 			x.g.Add(float64(v))
 		}
 	default:
@@ -219,6 +236,10 @@ func (m *vfMetric) resolve(t []string) vfHandle {
 func (m *vfMetric) emitT(set bool, d string, t []string) {
 	switch m.kind {
 	case "c":
+		if d == "1" {
+			m.c.Inc(t...) // the variadic by-tuple form of Inc
+			return
+		}
 		v, _ := strconv.ParseUint(d, 10, 64)
 		m.c.Add(v, t...)
 	case "g":
@@ -755,10 +776,25 @@ func vfConc(f []string) string {
 // told "ok" then run their program on the metric object THEY obtained.  The observation is taken from the object
 // the registry maps the name to (what AppendSnapshot walks).
 type vfRegThread struct {
-	name string
-	kind string
-	nl   int
-	prog []vfOp
+	name   string
+	kind   string
+	labels []string // label names in declaration order: l0..l(n-1) for "<n>", or the listed indices for "L1.0"
+	prog   []vfOp
+}
+
+func vfRegLabels(spec string) []string {
+	var out []string
+	if strings.HasPrefix(spec, "L") {
+		for _, p := range strings.Split(spec[1:], ".") {
+			out = append(out, "l"+p)
+		}
+		return out
+	}
+	n, _ := strconv.Atoi(spec)
+	for i := 0; i < n; i++ {
+		out = append(out, "l"+strconv.Itoa(i))
+	}
+	return out
 }
 
 type vfRegOut struct {
@@ -767,16 +803,12 @@ type vfRegOut struct {
 	ops []vfRes
 }
 
-func vfRegister(r *Registry, name, kind string, nl, cap int) (res string, m *vfMetric) {
+func vfRegister(r *Registry, name, kind string, labels []string, cap int) (res string, m *vfMetric) {
 	defer func() {
 		if rec := recover(); rec != nil {
 			res, m = "panic", nil
 		}
 	}()
-	labels := make([]string, nl)
-	for i := range labels {
-		labels[i] = "l" + strconv.Itoa(i)
-	}
 	m = &vfMetric{kind: kind, r: r}
 	var err error
 	switch kind {
@@ -848,7 +880,7 @@ func vfNewRegPool(ths []vfRegThread, cap int) *vfRegPool {
 					return
 				}
 				var o vfRegOut
-				o.res, o.m = vfRegister(p.reg.Load(), t.name, t.kind, t.nl, p.cap)
+				o.res, o.m = vfRegister(p.reg.Load(), t.name, t.kind, t.labels, p.cap)
 				if o.res == "ok" {
 					o.ops, _ = vfExec(o.m, t.prog, nil)
 				}
@@ -872,7 +904,7 @@ func vfRegRound(p *vfRegPool, noise, pre bool) string {
 			seenName[t.name] = true
 			names = append(names, t.name)
 			if pre {
-				if res, m := vfRegister(r, t.name, t.kind, t.nl, p.cap); res == "ok" {
+				if res, m := vfRegister(r, t.name, t.kind, t.labels, p.cap); res == "ok" {
 					preObj[t.name] = m.obj()
 				}
 			}
@@ -1041,8 +1073,7 @@ func vfReg(f []string) string {
 	var ths []vfRegThread
 	for _, tok := range f[5:] {
 		p := strings.Split(tok, "@")
-		nl, _ := strconv.Atoi(p[2])
-		ths = append(ths, vfRegThread{name: p[0], kind: p[1], nl: nl, prog: vfProg(p[3])})
+		ths = append(ths, vfRegThread{name: p[0], kind: p[1], labels: vfRegLabels(p[2]), prog: vfProg(p[3])})
 	}
 	if runtime.GOMAXPROCS(0) < len(ths)+1 {
 		runtime.GOMAXPROCS(len(ths) + 1)
